@@ -1097,8 +1097,8 @@ def run(ctx):
             ctx.require("oracle_evaluations", 1)
             return
     stats = {}
-    t_core = ctx.pick(9, 170)
-    t_end = ctx.pick(15, 330)
+    t_core = ctx.pick(11, 170)
+    t_end = ctx.pick(16, 290)
 
     def perturbed(wl, n):
         for _ in range(n):
@@ -1121,8 +1121,15 @@ def run(ctx):
         for i, wl in enumerate(core[:ctx.pick(160, 640)]):
             if ctx.mine(i):
                 perturbed(wl, 3)
+        # the basic feeder x reader races are always swept completely (count-based, no time cap)
+        must = [wl for wl in core if wl["state"]["phase"] == "open" and wl["state"]["fileno"] == "first"
+                and wl["feeder"] and wl["feeder"][0][0] in ("out", "err") and len(wl["readers"]) == 1]
+        for i, wl in enumerate(must):
+            if ctx.mine(i):
+                sweep(ctx, eng, wl, stats, float("inf"))
+                ctx.count("basic_race_workloads_fully_swept")
         for i, wl in enumerate(core):
-            if not ctx.mine(i):
+            if not ctx.mine(i) or wl in must:
                 continue
             if ctx.elapsed() > t_core:
                 ctx.count("core_workloads_skipped_for_time")
@@ -1136,7 +1143,7 @@ def run(ctx):
             sweep(ctx, eng, wl, stats, t_end + 3)
         ctx.count("engine_line_callbacks", eng.stats["line_events"])
     # INSTRUCTION granularity: every bytecode of buffered_pipe.py / pipe.py is a preemption point
-    t_instr = t_end + ctx.pick(4, 60)
+    t_instr = t_end + ctx.pick(4, 40)
     ifuncs = sched.functions_of(pipe.PosixPipe, pipe.OrPipe, buffered_pipe.BufferedPipe)
     with sched.Engine(instrumented(), instr_funcs=ifuncs) as eng:
         two = [wl for wl in core_workloads() if len(wl["readers"]) + (1 if wl["feeder"] else 0) == 2]
@@ -1180,6 +1187,7 @@ def run(ctx):
     ctx.require("combine_switched_off_after_fileno", 300)
     ctx.require("combine_on_before_fileno_and_off_at_end", 150)
     ctx.require("instruction_preemption_points_reached", 1000)
+    ctx.require("basic_race_workloads_fully_swept", 32)
     ctx.require("oracle_evaluations_sequential", 500)
     ctx.require("oracle_evaluations_preempt", 800)
     ctx.require("oracle_evaluations_random", 100)
